@@ -92,17 +92,28 @@ class NumpyProxy:
 
     # ---- NaN handling -----------------------------------------------------------
     def isnan(self, x, *a, **k):
-        return _elementwise(lambda v: isinstance(v, sx.NaNValue) or (isinstance(v, float) and v != v))(x)
+        r = _elementwise(lambda v: isinstance(v, sx.NaNValue) or (isinstance(v, float) and v != v))(x)
+        return _np.asarray(r, dtype=bool)
 
     def nan_to_num(self, x, copy=True, nan=0.0, **k):
+        def repl(v):
+            # nan -> 0; the undefined result of a division by zero may be nan or +-inf in numpy, i.e. 0 or +-1.8e308
+            # after nan_to_num: modelled as an unconstrained fresh real (sound over-approximation)
+            if v.kind == 'nan':
+                return nan
+            big = sx.cur().fresh('inf_')  # +-inf -> +-1.8e308
+            sx.cur().assume(big.e * big.e > sx._rv(10) ** 600)
+            return big
         if isinstance(x, _np.ndarray) and x.dtype == object:
             tgt = x.copy() if copy else x
             for i, v in enumerate(tgt.flat):
                 if isinstance(v, sx.NaNValue):
-                    tgt.flat[i] = nan
+                    tgt.flat[i] = repl(v)
+            if tgt.ndim == 0:
+                return tgt[()]
             return tgt
         if isinstance(x, sx.NaNValue):
-            return nan
+            return repl(x)
         if _is_sym(x) or (self._mode == 'sympy'):
             return x
         return _np.nan_to_num(x, copy=copy, nan=nan, **k)
